@@ -230,10 +230,45 @@ type pooled struct {
 	how   string
 }
 
+func c11Typed(c *core.Ctx, r *core.Rand, n int) error {
+	cfg := core.DefaultSchemaCfg
+	for i := 0; i < n; i++ {
+		sc, err := genSchemaCase(r, cfg)
+		if err != nil {
+			continue
+		}
+		tv := core.GenInhabitant(sc.T, r, cfg, false)
+		input := core.TypeInput(tv)
+		nb, err := sc.Eng.NewTypeBuilder(sc.T.Name)
+		if err != nil {
+			continue
+		}
+		var src datamodel.Node
+		if berr, panicked, _ := core.Catch(func() error {
+			if err := core.Assemble(nb, input, r); err != nil {
+				return err
+			}
+			src = nb.Build()
+			return nil
+		}); berr != nil || panicked || src == nil {
+			continue // acceptance is C09's business
+		}
+		caseID := "c11.typed " + sc.Eng.Name() + " " + sc.Ty + " VAL " + input.Term()
+		c.Count(caseID, input.Size() > 3)
+		typedAliasing(c, "C11", caseID, src.Prototype(), src)
+	}
+	return nil
+}
+
 func runC11(c *core.Ctx) error {
 	c.Rule = "histories of 8-25 operations over a growing pool of finished nodes: build (every basicnode prototype, random plans incl. AssignNode of pooled nodes), decode (dag-cbor, dag-json), stream-backed bytes, subset matches, then reads of every accessor, encodes, Copy, AssignNode into other builders that are then extended, walks, focused and walking transforms, builder Reset and reuse; after each operation every pooled node is snapshotted again; non-trivial = history with at least one sharing operation (AssignNode of a pooled container, Reset/reuse, transform); distinct by seed fork and history"
 	c.Explanation = "theorem on the heap-level model of basicnode's builders: no step writes a cell reachable from a finished node (frozen_inv), lifted to every history; reads are functions of the frozen cells (read_stable); stream-backed bytes read through a private cursor"
 	c.Assumptions = []string{"callers writing into byte slices they passed in or were handed back are excluded by the property", "bindnode / generated nodes are covered by their own correspondence (C08/C13); here they take part only through Copy/AssignNode"}
+	// schema-bound nodes (reflection binding, inferred and caller-supplied Go types): a finished typed node handed to
+	// another builder of its prototype with AssignNode stays what it is whatever happens to that builder or to the copy
+	if err := c11Typed(c, c.Rand.Fork(), c.Pick(250, 20000)); err != nil {
+		return err
+	}
 	nh := c.Pick(300, 20000)
 	for h := 0; h < nh; h++ {
 		r := c.Rand.Fork()
